@@ -12,7 +12,8 @@ Bounded exhaustive exploration of boot_noise_ceiling / cv_noise_ceiling / pool_r
   vectorised compare() call;
 * rescaling / shifting of every individual data RDM;
 * cross-validated ceiling on every set structure the fold generators produce for <= 4 RDM
-  groups (random=True: every shuffle outcome / deviation bounded).
+  groups (random=True: every shuffle outcome / deviation bounded), through cv_noise_ceiling and
+  through the real crossval() (both of its noise-ceiling branches: ceil_set given / None).
 
 Judged against mc/ref/c07_ref.py (plain-loop pooling and leave-one-group-out).
 """
@@ -35,8 +36,10 @@ RULE = ('One evaluation = one execution of library code judged by the reference:
         '(candidates) one vectorised compare() of all candidates against that stack; (inv) one pair of '
         'boot_noise_ceiling calls before/after transforming one RDM; (leak) one perturbation of a left-out '
         'group followed by sets_leave_one_out_rdm + pool_rdm and a recorded boot_noise_ceiling; (cv) one '
-        'fold-generator call + cv_noise_ceiling (ceil_set None: boot_noise_ceiling per fold as crossval '
-        'does) under one fully specified sequence of random draws. Stacks: all ordered stacks of 2 '
+        'fold-generator call + cv_noise_ceiling, or + the real crossval() (always for pattern-only sets with '
+        'ceil_set None, whose per-fold ceilings are each compared with the reference at that fold\'s TEST '
+        'conditions; additionally for the sets of every other generator), under one fully specified sequence '
+        'of random draws. Stacks: all ordered stacks of 2 '
         '(thorough: 3; quick: strided triples) vectors over {0,1,2}^3; a strided subset of ordered pairs over '
         '{0,1,2}^6 x every common NaN mask of <=2 entries; fixed fills for 2-4 RDMs x 3-4 conditions x '
         'every set partition of the RDMs x label namings x NaN masks; methods cosine, corr, rho-a '
@@ -72,15 +75,19 @@ BOUNDS = {
         'candidates': 'all of {0,1,2,3}^(non-missing entries) (64..4096) + data RDMs + reference pooled + library pooled +- {1e-3, 0.3}*e_i',
         'transforms': 'each single RDM x {0.5, 3} (cosine), x {0.5, 3} and +1 combined (corr)',
         'leak': 'every single entry and all entries of every left-out group changed',
-        'cv': '6 generators; every partition of <=4 RDMs x every k / group size; k_fold_rdm every shuffle outcome; '
-              'k_fold, sets_random, k_fold_pattern: all draws with <= 1 non-default answer (2 fills)'},
+        'cv': '7 generators; every partition of <=4 RDMs x every k / group size; k_fold_rdm every shuffle outcome; '
+              'k_fold, sets_random, k_fold_pattern, of_k_pattern: all draws with <= 1 non-default answer (2 fills); '
+              'pattern-only sets (ceil_set None) through the real crossval(): k in {1,2,3}, group sizes 3-5, n_cond '
+              '6,7,10 (unequal folds) and 12 (six condition groups of two), every fold judged separately; the sets '
+              'of every other generator also through crossval(ceil_set=...)'},
     'thorough': {
         'n_rdm': [2, 3, 4], 'n_cond': [3, 4], 'n_cond (pattern cross-validation)': [6, 7],
         'tier A': ['all 729 ordered pairs and all 19683 ordered triples over {0,1,2}^3 x all 5 groupings',
                    '729 ordered pairs over {0,1,2}^6 (strided) x all 22 common NaN masks of <= 2'],
         'tier B': '6 fills per (n_rdm, n_cond), otherwise as quick',
         'candidates': 'as quick', 'transforms': 'as quick', 'leak': 'as quick',
-        'cv': 'as quick with <= 2 non-default answers, 6 fills, n_cond 6 and 7 for every pattern generator'},
+        'cv': 'as quick with <= 2 non-default answers, 6 fills, n_cond 6 and 7 for every pattern generator; '
+              'pattern-only sets through crossval(): k in {1,2,3,4}, n_cond 6,7,9,10,11,12,13'},
 }
 
 PLAIN = ['cosine', 'corr', 'rho-a']
@@ -203,15 +210,21 @@ def shards(tier, seed):
                                     'key': key, 'style': style, 'chunk': [c, chunks]})
     # CV: cross-validated ceilings on every small set structure
     cvfills = fills[:2] if not thorough else fills
-    for gen in ('loo_rdm', 'k_fold_rdm', 'k_fold', 'random', 'loo_pattern', 'k_fold_pattern'):
+    for gen in ('loo_rdm', 'k_fold_rdm', 'k_fold', 'random', 'loo_pattern', 'k_fold_pattern', 'of_k_pattern'):
         if gen in ('loo_rdm', 'k_fold_rdm'):
             conds = [3, 4]
         elif gen in ('k_fold', 'random') and not thorough:
             conds = [6]
+        elif gen in ('k_fold_pattern', 'of_k_pattern'):
+            # pattern-only sets (ceil_set None) through the real crossval(): every fold needs >= 3 test
+            # conditions; 7, 10, 11, 13 give unequal fold sizes; 12 = six condition groups of two
+            conds = [6, 7, 10, 12] if not thorough else [6, 7, 9, 10, 11, 12, 13]
         else:
             conds = [6, 7]
         for n_rdm in (2, 3, 4):
             for n_cond in conds:
+                if gen == 'of_k_pattern' and n_cond == 12:
+                    continue
                 for key, style in cvfills:
                     parts = 1
                     if gen in ('k_fold', 'k_fold_rdm', 'random') and n_rdm >= 3:
@@ -657,19 +670,27 @@ def _shard_cv(shard, ctx):
     if rdm_only and n_cond == 4:
         masks = [[], [1], [0, 4]]
     partition_no = {rgs: i for i, rgs in enumerate(combi.set_partitions(n_rdm))}
+    pattern_only = gen in ('k_fold_pattern', 'of_k_pattern')
     for rgs, tag, labels in _labelings(n_rdm, False):
         if partition_no[rgs] % shard['chunk'][1] != shard['chunk'][0]:
             continue
         n_groups = len(set(labels))
+        if pattern_only and not (tag == 'desc' and partition_no[rgs] in (1, combi.BELL[n_rdm] - 1)):
+            continue    # the rdm grouping plays no role for pattern-only sets: singletons + one grouping
         for mask in masks:
             for params, random in _cv_params(gen, n_groups, n_cond, thorough):
                 if random and tag != 'desc' and n_groups > 1 and not (thorough and gen == 'k_fold_rdm'):
                     continue        # draws and label names are independent: one naming under draws
-                for m in PLAIN + (WHITE if gen == 'loo_rdm' and n_groups == n_rdm else []):
+                methods = PLAIN + (WHITE if (gen == 'loo_rdm' and n_groups == n_rdm) or
+                                   (pattern_only and not random) else [])
+                for m in methods:
                     case = {'kind': 'cv', 'gen': gen, 'fill': fill, 'n_cond': n_cond, 'mask': mask,
                             'labels': labels, 'params': params, 'random': random, 'method': m}
                     if not random:
                         _cv_exec(case, Env([]), ctx)
+                        if tag == 'desc' and not pattern_only and not len(mask):
+                            # the same sets handed to crossval() (ceil_set branch of its noise ceiling)
+                            _cv_exec(dict(case, via='crossval'), Env([]), ctx)
                         continue
                     rotating = m == PLAIN[(n_groups + len(params)) % 3]
                     first2 = (shard['key'], shard['style']) in ((0, 0), (0, 2))
@@ -687,6 +708,8 @@ def _shard_cv(shard, ctx):
                         pass
                     if stats.capped:
                         ctx.count('cap_hit')
+                    if gen == 'random' and rotating:
+                        _cv_exec(dict(case, via='crossval'), Env([]), ctx)
 
 
 def _cv_params(gen, n_groups, n_cond, thorough=True):
@@ -713,16 +736,48 @@ def _cv_params(gen, n_groups, n_cond, thorough=True):
         out.append(({'cgrp': [0, 0, 0, 1, 1, 1, 1][:n_cond] if n_cond == 7 else [5, 3, 5, 3, 3, 5]}, False))
         out.append(({'cgrp': (['b', 'a', 'a', 'b', 'a', 'b', 'b'])[:n_cond]}, False))
     elif gen == 'k_fold_pattern':
-        out.append(({'k': 2}, False))
-        out.append(({'k': 2}, True))
-        out.append(({'k': 1}, False))
+        if n_cond == 12:
+            # folds over six condition groups of two (grouping pattern descriptor, scrambled order)
+            for k in (2, 3):
+                out.append(({'k': k, 'cgrp': [4, 1, 5, 0, 1, 3, 2, 4, 0, 5, 3, 2]}, False))
+            return out
+        for k in (1, 2, 3, 4):
+            if k > 1 and n_cond < 3 * k:
+                continue        # crossval skips folds with < 3 conditions
+            if k == 4 and not thorough:
+                continue
+            out.append(({'k': k}, False))
+            if k > 1:
+                out.append(({'k': k}, True))
+    elif gen == 'of_k_pattern':
+        if n_cond == 12:
+            return out
+        for size in (3, 4, 5):
+            if n_cond // size >= 2:
+                out.append(({'size': size}, False))
+                if size == 3:
+                    out.append(({'size': size}, True))
     return out
+
+
+def _crossval(case, ctx, rdms, train_set, test_set, ceil_set, method, pdesc):
+    """Result.noise_ceiling of the real crossval() for one fixed model on the given sets"""
+    from rsatoolbox.inference import crossval
+    from rsatoolbox.model import ModelFixed
+    from rsatoolbox.rdm import RDMs
+    n_cond = case['n_cond']
+    vec = np.round(rng_for(ctx.seed, 'c07model', n_cond).uniform(0.2, 3.0, size=n_cond * (n_cond - 1) // 2), 4)
+    pd = {k: list(v) for k, v in rdms.pattern_descriptors.items() if k != 'index'}
+    model = ModelFixed('m', RDMs(vec.reshape(1, -1), pattern_descriptors=pd))
+    res = crossval(model, rdms, train_set, test_set, ceil_set=ceil_set, method=method,
+                   pattern_descriptor=pdesc)
+    return res.noise_ceiling
 
 
 def _cv_exec(case, env, ctx):
     """one execution: build the sets with the real generator (random draws answered by env),
     run cv_noise_ceiling (or, for ceil_set None, what crossval does instead) and judge"""
-    from rsatoolbox.inference import cv_noise_ceiling, boot_noise_ceiling
+    from rsatoolbox.inference import cv_noise_ceiling
     from rsatoolbox.inference import crossvalsets as cvs
     gen, method, labels, mask = case['gen'], case['method'], case['labels'], case['mask']
     params, n_cond = case['params'], case['n_cond']
@@ -750,8 +805,13 @@ def _cv_exec(case, env, ctx):
                 pdesc = 'cgrp'
                 train_set, test_set, ceil_set = cvs.sets_leave_one_out_pattern(rdms, 'cgrp')
             elif gen == 'k_fold_pattern':
+                if 'cgrp' in params:
+                    pdesc = 'cgrp'
                 train_set, test_set, ceil_set = cvs.sets_k_fold_pattern(
-                    rdms, pattern_descriptor='index', k=params['k'], random=case['random'])
+                    rdms, pattern_descriptor=pdesc, k=params['k'], random=case['random'])
+            elif gen == 'of_k_pattern':
+                train_set, test_set, ceil_set = cvs.sets_of_k_pattern(
+                    rdms, pattern_descriptor='index', k=params['size'], random=case['random'])
             else:
                 raise ValueError(gen)
         done = dict(case, choices=list(env.choices))
@@ -761,29 +821,53 @@ def _cv_exec(case, env, ctx):
             folds.append(([int(r) for r in tr[0].rdm_descriptors['rid']],
                           [int(r) for r in te[0].rdm_descriptors['rid']],
                           [int(c) for c in te[0].pattern_descriptors['cid']]))
+        via = 'crossval' if (ceil_set is None or case.get('via') == 'crossval') else 'direct'
+        if via == 'crossval':
+            sigp = 'crossval|gen=%s,method=%s,ceil_set=%s' % (gen, method, 'none' if ceil_set is None else 'given')
         if ceil_set is None:
-            # crossval(): leave-one-RDM-out ceiling of the full data at the fold's test conditions
-            lows, ups, wants = [], [], []
-            for (tr, te, conds), test in zip(folds, test_set):
+            # pattern-only sets: crossval() reports per fold the leave-one-RDM-out ceiling of the
+            # complete data at the fold's TEST conditions
+            wants = []
+            for tr, te, conds in folds:
                 sub = [R.restrict(v, n_cond, conds) for v in full.tolist()]
                 if len(sub[0]) < 3 or not _defined(method, sub):
                     ctx.exclude('cv: ' + UNDEF)
                     return
-                want, info = R.lower_bound(method, sub)
-                if want is None:
-                    ctx.exclude('cv lower bound: ' + str(info))
+                base = method if method in PLAIN else ('corr' if 'corr' in method else 'cosine')
+                want_lo, info = R.lower_bound(base, sub)
+                want_up = R.upper_bound(base, sub)
+                if want_lo is None or want_up is None:
+                    ctx.exclude('cv lower bound: ' + str(info if want_lo is None else 'pooled RDM undefined'))
                     return
-                lo, up = boot_noise_ceiling(rdms.subsample_pattern(by=pdesc, value=test[1]), method=method)
-                lows.append(float(lo))
-                ups.append(float(up))
-                wants.append(want)
+                wants.append((want_lo, want_up))
+            nc = np.asarray(_crossval(case, ctx, rdms, train_set, test_set, None, method, pdesc), dtype=float)
             ctx.case(done)
-            ctx.outcome([round(v, 9) for v in lows])
-            for lo, want in zip(lows, wants):
-                ctx.dev('cv-lower/' + method, reldev(lo, want))
-                if not close(lo, want, TOL):
-                    ctx.fail(sigp + '|lower!=leave-one-rdm-out-at-test-conditions', done,
-                             'fold lower bounds %s, reference %s; data=%s folds=%s' % (lows, wants, full.tolist(), folds))
+            ctx.outcome(np.round(nc, 9))
+            if nc.shape != (2, len(folds)):
+                ctx.fail(sigp + '|noise-ceiling-shape', done, 'Result.noise_ceiling has shape %r for %d folds' % (
+                    nc.shape, len(folds)))
+                return
+            for i, (want_lo, want_up) in enumerate(wants):
+                lo, up = float(nc[0, i]), float(nc[1, i])
+                if method in PLAIN:
+                    ctx.dev('cv-lower/' + method, reldev(lo, want_lo))
+                    ctx.dev('cv-upper/' + method, reldev(up, want_up))
+                    if not close(lo, want_lo, TOL):
+                        ctx.fail(sigp + '|fold-lower!=leave-one-rdm-out-at-test-conditions', done,
+                                 'fold %d (test conditions %s): lower %.12g, leave-one-RDM-out reference at the test '
+                                 'conditions %.12g; all folds: %s; data=%s' % (
+                                     i, folds[i][2], lo, want_lo, nc.tolist(), full.tolist()))
+                        break
+                    if not close(up, want_up, TOL):
+                        ctx.fail(sigp + '|fold-upper!=best-achievable-at-test-conditions', done,
+                                 'fold %d (test conditions %s): upper %.12g, highest achievable average similarity at '
+                                 'the test conditions %.12g; all folds: %s; data=%s' % (
+                                     i, folds[i][2], up, want_up, nc.tolist(), full.tolist()))
+                        break
+                if method in ORDER and (np.isnan(lo) or np.isnan(up) or
+                                        lo > up + (TOL_CG if method in WHITE else TOL)):
+                    ctx.fail(sigp + '|lower>upper', done, 'fold %d: lower %.12g upper %.12g; data=%s' % (
+                        i, lo, up, full.tolist()))
                     break
             return
         want, info = R.cv_lower(method if method in PLAIN else ('corr' if 'corr' in method else 'cosine'),
@@ -791,7 +875,15 @@ def _cv_exec(case, env, ctx):
         if want is None:
             ctx.exclude('cv lower bound: ' + str(info))
             return
-        lo, up = cv_noise_ceiling(rdms, ceil_set, test_set, method=method, pattern_descriptor=pdesc)
+        if via == 'crossval':
+            nc = np.asarray(_crossval(case, ctx, rdms, train_set, test_set, ceil_set, method, pdesc), dtype=float)
+            if nc.shape != (2,):
+                ctx.case(done)
+                ctx.fail(sigp + '|noise-ceiling-shape', done, 'Result.noise_ceiling has shape %r' % (nc.shape,))
+                return
+            lo, up = nc
+        else:
+            lo, up = cv_noise_ceiling(rdms, ceil_set, test_set, method=method, pattern_descriptor=pdesc)
         lo, up = float(lo), float(up)
         ctx.case(done)
         ctx.outcome((round(lo, 9), round(up, 9)))
